@@ -13,6 +13,7 @@ import (
 	"fmt"
 	"strings"
 	"testing"
+	"time"
 
 	"github.com/google/jsonschema-go/jsonschema"
 	"github.com/modelcontextprotocol/go-sdk/mcp"
@@ -360,7 +361,17 @@ func run(s Script) (res vt.Result) {
 				res.Class("arguments_handed_over_as_go_values")
 			}
 		}
-		result, callErr := cs.CallTool(ctx, params)
+		// (The call is answered within microseconds on an in-memory link. A call that is never answered at all
+		// - e.g. because the result could not be encoded - must not hang the run: half a minute of real time
+		// is given, and running out of it is reported as what it is.)
+		cctx, cancelCall := context.WithTimeout(ctx, 30*time.Second)
+		result, callErr := cs.CallTool(cctx, params)
+		timedOut := cctx.Err() != nil
+		cancelCall()
+		if callErr != nil && timedOut {
+			res.Failf("call %d (args %s): CallTool was not answered within 30 s of real time (the server never wrote a response): %v", i, c.Args, callErr)
+			return
+		}
 		env.mu.Lock()
 		invoked, seen, outJSON, outZero, outNilPtr, outNil := env.invoked, env.seen, env.outJSON, env.outZero, env.outNilPtr, env.outNil
 		asked, seenAsk := env.asked, env.seenAsk
